@@ -126,12 +126,29 @@ Definition mult_codes (out inn : rate) (n : nat) : list Z :=
   cut_at_error (map mres_code (mult_run out inn MNew n)).
 Definition sparse_ok (c : list Z) (dflt : Z) (len : Z) (expected : list (Z * Z)) : bool :=
   (Z.of_nat (List.length c) =? len) && list_eqb pair_eqb (sparse_from 0 dflt c) expected.
+
+(** The same comparison fused with the run (no intermediate lists; this is what the exhaustive sweep evaluates):
+    the code of step j must be the value [expected] gives for index j, or [dflt] when j is not listed; the run ends
+    after [n] steps or after the first error code, and must then have exactly [len] entries and no expectation left. *)
+Definition is_nil {A} (l : list A) : bool := match l with [] => true | _ => false end.
+Fixpoint run_check (step : mstate -> mres * mstate) (n : nat) (j : Z) (st : mstate)
+         (dflt len : Z) (expected : list (Z * Z)) : bool :=
+  match n with
+  | O => is_nil expected && (j =? len)
+  | S k =>
+      let '(r, st') := step st in
+      let c := mres_code r in
+      let '(want, rest) := match expected with
+                           | (i, v) :: rest => if i =? j then (v, rest) else (dflt, expected)
+                           | [] => (dflt, [])
+                           end in
+      (c =? want) &&
+      (if c <? 0 then is_nil rest && (j + 1 =? len) else run_check step k (j + 1) st' dflt len rest)
+  end.
 Definition mult_sparse_ok (out inn : rate) (n : Z) (dflt : Z) (len : Z) (expected : list (Z * Z)) : bool :=
-  sparse_ok (mult_codes out inn (Z.to_nat n)) dflt len expected.
-Definition mult_codes_x (out inn : rate) (n : nat) : list Z :=
-  cut_at_error (map mres_code (mult_run_x out inn MNew n)).
+  run_check (mult_next out inn) (Z.to_nat n) 0 MNew dflt len expected.
 Definition mult_sparse_ok_x (out inn : rate) (n : Z) (dflt : Z) (len : Z) (expected : list (Z * Z)) : bool :=
-  sparse_ok (mult_codes_x out inn (Z.to_nat n)) dflt len expected.
+  run_check (mult_next_x out inn) (Z.to_nat n) 0 MNew dflt len expected.
 
 (** ---- the device-clock phase of Timeline.tick ----
     for device in self.output_devices:
@@ -178,3 +195,9 @@ Definition tl_new (rates : list rate) : list dev := map (fun r => mkDev r MNew) 
 Definition count_dev (i : Z) (calls : list Z) : Z := Z.of_nat (List.length (filter (Z.eqb i) calls)).
 
 Definition tlres_code (r : tlres) : Z := match r with TLOk => 0 | TLClockErr => -1 | TLStop => -2 | TLFuel => -3 end.
+
+(** harness encoding of one timeline tick's call list (device indices 0..2) as a base-4 number *)
+Definition enc_calls (l : list Z) : Z := fold_left (fun v c => v * 4 + (c + 1)) l 0.
+Definition tl_sparse_ok (inn : rate) (rates : list rate) (n dflt len : Z) (expected : list (Z * Z)) (code : Z) : bool :=
+  let '(o, r) := tl_run inn (tl_new rates) (Z.to_nat n) in
+  sparse_ok (map enc_calls o) dflt len expected && (tlres_code r =? code).
